@@ -93,6 +93,7 @@ type Exec struct {
 	deferFrames []*frame
 	curFrame *frame
 	funcs    map[string]int
+	lit      map[*Term]bool
 }
 
 func (x *Exec) unsupported(msg string) {
@@ -127,6 +128,7 @@ func (x *Exec) fresh(prefix string, s Sort) *Term {
 	name := fmt.Sprintf("%s%d", prefix, x.varN)
 	x.varN++
 	t := x.ts.Var(name, s)
+	t.Dom = nil
 	x.vars = append(x.vars, t)
 	return t
 }
@@ -135,13 +137,83 @@ func (x *Exec) addPC(c *Term) {
 	if c.IsTrue() {
 		return
 	}
+	if v, ok := x.lit[c]; ok && v {
+		return
+	}
 	x.pc = append(x.pc, c)
 	x.sol.Assert(x.ts, c)
+	x.learn(c, true)
+}
+
+// learn records literals implied by the path condition, so that a condition met again
+// on the same path is decided without a solver call.
+func (x *Exec) learn(c *Term, v bool) {
+	if c.IsConst() {
+		return
+	}
+	x.lit[c] = v
+	switch c.Op {
+	case ONot:
+		x.learn(c.Args[0], !v)
+	case OAnd:
+		if v {
+			x.learn(c.Args[0], true)
+			x.learn(c.Args[1], true)
+		}
+	case OOr:
+		if !v {
+			x.learn(c.Args[0], false)
+			x.learn(c.Args[1], false)
+		}
+	}
+}
+
+// known simplifies a condition with the literals learned on this path.
+func (x *Exec) known(c *Term) *Term {
+	if c == nil || c.IsConst() {
+		return c
+	}
+	if v, ok := x.lit[c]; ok {
+		return x.ts.Bool(v)
+	}
+	switch c.Op {
+	case ONot:
+		a := x.known(c.Args[0])
+		if a != c.Args[0] {
+			return x.ts.Not(a)
+		}
+	case OAnd:
+		a, b := x.known(c.Args[0]), x.known(c.Args[1])
+		if a != c.Args[0] || b != c.Args[1] {
+			return x.ts.And(a, b)
+		}
+	case OOr:
+		a, b := x.known(c.Args[0]), x.known(c.Args[1])
+		if a != c.Args[0] || b != c.Args[1] {
+			return x.ts.Or(a, b)
+		}
+	}
+	return c
 }
 
 // choose is the only fork primitive. conds[i]==nil means "free" (always feasible).
 // exhaustive: the disjunction of conds is valid.
 func (x *Exec) choose(kind string, conds []*Term, exhaustive bool) int {
+	if len(x.lit) > 0 {
+		var nc []*Term
+		for i, c := range conds {
+			k := x.known(c)
+			if k != c {
+				if nc == nil {
+					nc = append([]*Term(nil), conds...)
+				}
+				nc[i] = k
+			}
+		}
+		if nc != nil {
+			conds = nc
+		}
+	}
 	live := make([]int, 0, len(conds))
 	for i, c := range conds {
 		if c == nil || !c.IsFalse() {
